@@ -387,7 +387,7 @@ func checkPackability(c *Check, p *Program) {
 			}
 		}
 	}
-	c.Floor(rule, "util.Pack/PackSome/Unpack/UnpackSome call sites", nSites, 36)
+	c.Floor(rule, "util.Pack/PackSome/Unpack/UnpackSome call sites", nSites, 28)
 	c.Note("packability: %d call sites, %d boxed arguments", nSites, nItems)
 }
 
